@@ -53,10 +53,11 @@
 (*      labels) are evaluated with the same typed arithmetic as run-time     *)
 (*      expressions (C 6.6p11: "the semantic rules for the evaluation of a   *)
 (*      constant expression are the same as for nonconstant expressions").   *)
+(*      sizeof(T[n]) = n * sizeof(T), of type int (C 6.5.3.4).               *)
 (*  Out of the model (never generated): floats, strings, structs, pointer    *)
 (*  arithmetic and comparison (ppci adds the integer unscaled, unlike C),    *)
 (*  pointers to pointers, functions returning pointers, casts from / to      *)
-(*  bool or pointers, sizeof, multiple modules, external functions.          *)
+(*  bool or pointers, other uses of sizeof, multiple modules, externals.     *)
 (*                                                                           *)
 (* A *case* is [id, prog, fn, argv : Seq(Seq(word)), fuel].  The machine     *)
 (* runs prog.fn(argv[av]) and yields                                         *)
@@ -225,7 +226,7 @@ DeclT(d) == [ty |-> d.ty, ptr |-> d.ptr]
 
 (* ======================= expressions ========================================= *)
 \* X = [fid, prog, pend] context;  S = [m, np] threaded state (store, replayed calls)
-RECURSIVE Eval(_, _, _), LVal(_, _, _), EvalArgs(_, _, _, _, _, _), ConstVal(_, _, _)
+RECURSIVE Eval(_, _, _), LVal(_, _, _), EvalArgs(_, _, _, _, _, _), ConstVal(_, _, _), ConstExpr(_, _, _)
 
 OkL(loc, cur, lty, S, fx) == [st |-> "ok", loc |-> loc, cur |-> cur, lty |-> lty, S |-> S, fx |-> fx]
 ObjCur(o, j) == CASE o.k = "s" -> IV(o.ty, o.w)
@@ -353,6 +354,12 @@ Eval(e, X, S) ==
            IF r.st # "ok" THEN r
            ELSE LET z == CastTo(r.v, e.ty) IN IF z.st # "ok" THEN z ELSE Ok(z.v, r.S, r.fx)
       [] e.k = "call" -> EvalCall(e, X, S)
+      [] e.k = "sizeof" ->        \* sizeof(T[n]), n a constant expression: n * sizeof(T), of type int (as in C, 6.5.3.4p4)
+           LET c == ConstExpr(e.n, X.prog, IntT) IN
+           IF c.st # "ok" THEN c
+           ELSE LET sz == SmallInt(c.v) IN
+                IF ~sz.ok \/ sz.n < 1 \/ sz.n > 4096 \/ e.ty \notin IntTypes THEN Bad("stuck", "array size")
+                ELSE Ok(IV(IntT, WFromNat(sz.n * Size(e.ty), 4)), S, NoFx)
       [] OTHER -> Bad("stuck", "unknown expression kind")
 
 (* ======================= stores, initial values, observation ================== *)
@@ -370,19 +377,28 @@ ConstExpr(e, P, ty) ==
     LET r == Eval(e, CX(P), S00) IN
     IF r.st # "ok" THEN (IF r.st = "call" THEN Bad("stuck", "call in a constant expression") ELSE r)
     ELSE Coerce(r.v, ty)
-RECURSIVE InitElems(_, _, _, _)
-InitElems(g, P, j, acc) ==
-    IF j > g.len THEN [st |-> "ok", el |-> acc]
-    ELSE IF Len(g.init) = 0 THEN InitElems(g, P, j + 1, Append(acc, WZero(Size(g.ty))))
+\* number of elements of a global array: a number, or a constant expression (var T[e] a;)
+GLen(g, P) ==
+    IF g.lenx.k = "none" THEN [st |-> "ok", n |-> g.len]
+    ELSE LET c == ConstExpr(g.lenx, P, IntT) IN
+         IF c.st # "ok" THEN c
+         ELSE LET sz == SmallInt(c.v) IN
+              IF ~sz.ok \/ sz.n < 1 \/ sz.n > 64 THEN Bad("stuck", "array size") ELSE [st |-> "ok", n |-> sz.n]
+RECURSIVE InitElems(_, _, _, _, _)
+InitElems(g, P, n, j, acc) ==
+    IF j > n THEN [st |-> "ok", el |-> acc]
+    ELSE IF Len(g.init) = 0 THEN InitElems(g, P, n, j + 1, Append(acc, WZero(Size(g.ty))))
     ELSE LET c == ConstExpr(g.init[j], P, g.ty) IN
-         IF c.st # "ok" THEN c ELSE InitElems(g, P, j + 1, Append(acc, c.v.w))
+         IF c.st # "ok" THEN c ELSE InitElems(g, P, n, j + 1, Append(acc, c.v.w))
 InitObj(g, P) ==
     IF g.ptr THEN [st |-> "ok", o |-> PtrO(g.ty, NullKey, 0)]
-    ELSE IF g.len = 0
+    ELSE IF g.len = 0 /\ g.lenx.k = "none"
     THEN IF Len(g.init) = 0 THEN [st |-> "ok", o |-> Scal(g.ty, WZero(Size(g.ty)))]
          ELSE LET c == ConstExpr(g.init[1], P, g.ty) IN IF c.st # "ok" THEN c ELSE [st |-> "ok", o |-> Scal(g.ty, c.v.w)]
-    ELSE IF Len(g.init) \notin {0, g.len} THEN Bad("stuck", "wrong number of initial values")
-    ELSE LET r == InitElems(g, P, 1, <<>>) IN IF r.st # "ok" THEN r ELSE [st |-> "ok", o |-> Arr(g.ty, r.el)]
+    ELSE LET gl == GLen(g, P) IN
+         IF gl.st # "ok" THEN gl
+         ELSE IF Len(g.init) \notin {0, gl.n} THEN Bad("stuck", "wrong number of initial values")
+         ELSE LET r == InitElems(g, P, gl.n, 1, <<>>) IN IF r.st # "ok" THEN r ELSE [st |-> "ok", o |-> Arr(g.ty, r.el)]
 RECURSIVE InitGlobals(_, _, _)
 InitGlobals(P, k, acc) ==
     IF k > Len(P.globals) THEN [st |-> "ok", m |-> acc]
